@@ -3,6 +3,7 @@ import SameVerif.Spec.OracleC03
 import SameVerif.Spec.OracleC06
 import SameVerif.Spec.OracleC16
 import SameVerif.Model.Events
+import SameVerif.Model.HeaderSem
 import SameVerif.Model.Time
 import SameVerif.Spec.OracleC15
 import SameVerif.Model.Framer
@@ -52,7 +53,8 @@ def showAccessors (h : Header) : String :=
   let locs := showP (fun (l : List (List Byte)) => "/".intercalate (l.map hexOf)) h.locations
   let dur := showP (fun (p : Nat × Nat) => s!"{p.1}:{p.2}") h.validDurationFields
   let iss := showP (fun (p : Nat × Nat × Nat) => s!"{p.1}:{p.2.1}:{p.2.2}") h.issueDaytimeFields
-  s!"org={showP hexOf h.originatorStr} evt={showP hexOf h.eventStr} locs={locs} dur={dur} iss={iss} call={showP hexOf h.callsign}"
+  let natl := showP (fun (b : Bool) => if b then "1" else "0") h.isNational
+  s!"org={showP hexOf h.originatorStr} evt={showP hexOf h.eventStr} locs={locs} dur={dur} iss={iss} call={showP hexOf h.callsign} orgk={showP Gen.Originator.name h.originator} natl={natl}"
 
 /-- the answer to `hdr <bytes>`: `MessageHeader::new` and every accessor -/
 def hdrOut (b : List Byte) : String :=
@@ -633,7 +635,7 @@ def parseHdrAns (ws : List String) : Spec.HdrVerdictIn :=
   match ws with
   | ["err:NotAscii"] => .errNotAscii
   | ["err:Malformed"] => .errMalformed
-  | ["som", t, o, p, v, org, evt, locs, dur, iss, call] =>
+  | ["som", t, o, p, v, org, evt, locs, dur, iss, call, orgk, natl] =>
     let r : Option Spec.HdrAns := do
       let t ← unhex t
       let o ← kv o "off"
@@ -647,7 +649,9 @@ def parseHdrAns (ws : List String) : Spec.HdrVerdictIn :=
       let iss ← (kvs iss "iss").bind (fun d => match (d.splitOn ":").mapM String.toNat? with
         | some [a, b, c] => some (a, b, c) | _ => none)
       let call ← (kvs call "call").bind unhex
-      pure { text := t, off := o, par := p, vot := v, org, evt, locs, dur, iss, call }
+      let orgk ← kvs orgk "orgk"
+      let natl ← kv natl "natl"
+      pure { text := t, off := o, par := p, vot := v, org, evt, locs, dur, iss, call, orgk, natl := natl == 1 }
     match r with
     | some a => .ok a
     | none => .errOther (" ".intercalate ws)
